@@ -108,115 +108,12 @@ CHECKS['C06'] = dict(
    technique='function transcription checked by TLC and replayed transition-complete on the real batch handler (TLC trace validation of the real outcomes) + TLA+ protocol model checked by TLC + TLC trace validation of symbolic results against AlgoAbs',
    design='4 (C06), 5')
 CHECKS['C07'] = dict(
-   text='TLC model-checks Pipeline (stage tasks, per-filter input_buffer with low/high tokens, parked ring with growth, token accounting, input-task recycling) '
+   text='TLC model-checks PipeBuffer - a transcription of the token buffer of a serial filter (input_buffer::try_put_token / try_to_spawn_task_for_next_token / grow: ring indexed by token, low_token, doubling with re-placement) for 7-11 items (thorough 19) with up to 10 (18) tokens in flight, tokens assigned upstream or here: items are processed in token order, each once, a parked item is never overwritten or lost - and EVERY transition of that graph (12 k distinct (ring, operation) pairs) is applied to the REAL r1::input_buffer (src/tbb/parallel_pipeline.cpp compiled into the harness, ring and tokens set white-box); the real outcome is validated by TLC (TracePipeBuf, the verdict) and compared with the transcription (drift). TLC model-checks Pipeline (stage tasks, per-filter input_buffer with low/high tokens, parked ring with growth, token accounting, input-task recycling) '
         'for six mode strings: serial exclusivity, token bound, no duplicate, common in-order sequence, ring indexing, completion, no deadlock. Filter-body '
         'begin/end events of real parallel_pipeline runs for all 39 mode strings of length <= 3 plus six of length 4, token limits 1..3, 0..5 items, '
         'seed-derived per-item stage delays, on 3 logical threads under seeded random cooperative schedules are validated by TLC against PipeAbs.',
    note='arrival orders sampled; the protocol model is bound to the code through the abstract events only (no step replay)',
-   technique='function transcription checked by TLC and replayed transition-complete on the real batch handler (TLC trace validation of the real outcomes) + TLA+ protocol model checked by TLC + TLC trace validation of filter events against PipeAbs',
-   design='4 (C07)')
-CHECKS['C01'] = dict(
-   text='TLC model-checks TaskPool and TaskPoolIso (arena_slot spawn incl. relocation of the pool in prepare_task_pool, get_task / get_task_impl with isolation: skipped tasks, '
-        're-publication of the skipped range, holes; steal_task with isolation and roll-back; 1 owner x 2 thieves, one label per shared access, real pool size 64), Mailbox '
-        '(task_proxy two-sided claim, outbox push/pop), WaitTree (wait_context / reference_vertex forwarding over a 5-task tree) and PoolState (no lost enqueued task). Every edge of '
-        'three TaskPool / TaskPoolIso state graphs (100 k + 105 k + 184 k edges in the quick tier, 380 k more in thorough) is replayed on a real arena_slot inside a real arena with '
-        '(head, tail, lock word) compared after every step (zero drift on the current tree), and the Spawn/Got events are validated by TLC (no task returned twice, none lost). '
-        'Integrated scenarios (nested groups, tasks that submit tasks to the waited group, enqueued and deferred task handles, run_and_wait, execute) on 2-4 logical threads of '
-        'all-reserved arenas under seeded random / PCT cooperative schedules over every scheduler atomic are validated by TLC against SchedAbs (exactly once; the wait covers all work '
-        'and sees its writes).',
-   note='edge-complete replay for the TaskPool / TaskPoolIso instances; Mailbox / WaitTree / PoolState are bound to the code through the integrated scenarios only (TaskStream is replayed under C02); interleavings needing >4 threads are not explored',
-   technique='function transcription checked by TLC and replayed transition-complete on the real batch handler (TLC trace validation of the real outcomes) + PlusCal protocol specs checked by TLC, edge-complete replay into the real arena_slot, TLC trace validation against SchedAbs',
-   design='4 (C01), 8')
-CHECKS['C20'] = dict(
-   text='TLC model-checks Suspend (the m_stack_state hand-shake between the suspending thread, a resumer and a third dispatching thread): at most one '
-        'continuation, only after resume, only after the stack was left, and eventually exactly one under weak fairness. Real tbb::task::suspend/resume '
-        'scenarios (resume from another task on a thief, from the suspend callback itself, from a foreign thread incl. arenas of size 1 = owner recall, two '
-        'suspended units resumed in reverse order) on 1-4 logical threads under seeded random cooperative schedules are validated by TLC against SchedAbs '
-        '(Suspend/Resume/Continue exactly once, the enclosing wait does not return while a covered unit is suspended, other work keeps running).',
-   note='schedules sampled; nested suspension inside a resumed continuation and suspension at nested dispatch levels are not separately driven',
-   technique='function transcription checked by TLC and replayed transition-complete on the real batch handler (TLC trace validation of the real outcomes) + TLA+ protocol model (safety + liveness) checked by TLC + TLC trace validation of real suspend/resume runs against SchedAbs',
-   design='4 (C20)')
-CHECKS['C19'] = dict(
-   text='TLC model-checks CallOnce (collaborative_once_flag m_state word: uninitialized / done / runner pointer | transient helper references bounded by the '
-        'alignment mask, runner reference count and ready flag, set_completion_state waiting for helpers to drain, exception reset) for 3-4 callers and the '
-        'function throwing on attempts {}, {1}, {1,2}: completes exactly once, callers return only after it, one caller per exception, the runner is never touched '
-        'after its destruction, and every caller terminates under weak fairness; and ETS (table_lookup: chain of open-addressed arrays, slot claim by CAS, growth by '
-        'CAS push, re-insertion at the top level) for 3-4 threads crossing the table doublings: one element and one initialiser call per thread, no sharing, probes '
-        'bounded, a freed array never linked. Executions of the real collaborative_call_once (2-8 callers that are threads of an all-reserved arena so helpers '
-        'moonlight, function throwing on chosen attempts, nested work, retry after an exception) and of enumerable_thread_specific (both key kinds) / combinable '
-        '(2-12 threads x 3 lookups, iteration and combine_each) under seeded random and PCT-style priority cooperative schedules at atomic-access granularity are '
-        'validated by TLC against OnceAbs / EtsAbs; a crash or hang of the code under test is an event the abstract spec rejects.',
-   note='real-code schedules sampled (seeded random + priority schedules with change points biased to m_state accesses), not TLC-enumerated; sequentially consistent; the protocol models are bound to the code by the abstract events only (no step replay)',
-   technique='function transcription checked by TLC and replayed transition-complete on the real batch handler (TLC trace validation of the real outcomes) + PlusCal protocol models (safety + liveness) checked by TLC + TLC trace validation of recorded real executions against OnceAbs / EtsAbs',
-   design='4 (C19)')
-CHECKS['C03'] = dict(
-   text='TLC model-checks EHDispatch (throwing task -> cancel_group_execution winner stores the exception -> remaining tasks skipped -> waiter rethrows and '
-        'resets) for every subset of throwing tasks and every interleaving of 2-3 executing threads and the waiter. 18 programs over the real library '
-        '(parallel_for x4 partitioners, custom Range, parallel_reduce x3 forms, deterministic reduce, parallel_for_each with feeder, parallel_invoke, '
-        'parallel_pipeline, nested task_group, task_arena::execute, parallel_scan, parallel_sort, flow graph) run with the k-th body / join / split ctor / '
-        'copy ctor / filter invocation throwing, for every k up to a per-program bound, each case forked, on 3 logical threads of an all-reserved arena '
-        'under seeded random cooperative schedules with a stuck detector; each program is called twice (reusability). Call/BB/BE/Throw/Ret/Exc/Obj/Quiesce '
-        'events are validated by TLC against GroupEH (one thrown exception surfaces, no live or later body, objects destroyed exactly once).',
-   note='one injected fault per execution; schedules sampled (seeded random), not enumerated; known findings: throwing join hangs parallel_reduce, leaked Body in deterministic reduce (DESIGN 6.6)',
-   technique='PlusCal protocol model checked by TLC + fault enumeration on the real library with TLC trace validation against GroupEH',
-   design='4 (C03), 6.6')
-CHECKS['C10'] = dict(
-   text='TLC model-checks HashMapRehash (mask read, bucket lock, lazy rehash of the child bucket from its parent, mask-race restart; growth 1->2 buckets, '
-        '3 threads x 3 operations: every call returns what the abstract map holds at its linearization point, no key lost / duplicated / resurrected; a model '
-        'mutant without the restart is rejected). Histories of the real concurrent_hash_map (insert/find/erase/count, accessor and const_accessor hold '
-        'intervals, element-instance destruction events; identity / constant / low-bit-colliding hash, one initial bucket so growth thresholds are crossed) under '
-        'seeded random cooperative schedules over every atomic of the map are checked by TLC for linearizability and the per-element lock rules against MapAbs.',
-   note='real-code schedules sampled (seeded random cooperative), not TLC-enumerated; the protocol model is bound to the code by the abstract histories only (no step replay)',
-   technique='PlusCal protocol model checked by TLC + TLC linearizability / lock-rule validation of recorded real histories against MapAbs',
-   design='4 (C10)')
-CHECKS['C12'] = dict(
-   text='TLC model-checks SplitList (insert-only split-ordered list, unique and multi, 3 inserters incl. equal and adjacent keys: sorted, reachable, exactly one '
-        'winner per absent key, nothing lost) and SkipList (the lock-free insert and lower_bound of concurrent_skip_list at shared-access granularity: per-level '
-        'search from the loaded max height, level-0 CAS with full re-search, max-height CAS loop, upper-level CAS with re-search from the remembered predecessors; '
-        '2-3 inserters incl. equal keys and heights 1-3, a reader: every level always an acyclic sorted sub-list of level 0, one node per key, a key whose insert '
-        'returned is found by a search that began later, all levels complete at quiescence). Every edge of the SkipList state graph is replayed on the REAL '
-        'concurrent_skip_list (the container\'s own level-generator and allocator template parameters supply the model\'s heights and a tracked node pool), '
-        'one shared access per step, comparing the max height and the key sequence of every level after every step; the Inv/Res/Final histories of those replays '
-        'and of the eight real container types (insert/find/count and traversals concurrent with inserts; constant / identity / colliding hashes, 2 initial buckets '
-        'so the table doubles) under seeded random cooperative schedules are validated by TLC against SetAbs: linearizable presence, one success per absent unique '
-        'key, a traversal sees everything inserted before it began, nothing twice, nothing never inserted, ordered containers in order, final contents = successful inserts.',
-   note='the unordered containers\' schedules are sampled, not enumerated; the skip-list replay covers the unique-key insert and lower_bound paths (multimap index numbers and '
-        'unsafe_* operations are exercised only by the sampled histories); the multiplicity returned by count() on multi containers concurrently with inserts is not constrained (not in the property)',
-   technique='PlusCal protocol models checked by TLC, the SkipList graph replayed edge-complete on the real skip list with per-step state comparison, TLC validation of recorded real histories (incl. traversals) against SetAbs',
-   design='4 (C12)')
-CHECKS['C13'] = dict(
-   text='TLC model-checks PQBatch - a transcription of handle_operations / heapify / reheap (what one batch of aggregated operations does to the heap array: first-pass pushes and shortcut pops, deferred pops, reheap, final heapify) over every array of <= 6 elements of 3 values and every batch of <= 3 operations (thorough: 7 / 4 / 3): the array is a heap again, nothing lost or invented, the results are those of some order of the batch - and EVERY transition of that graph is applied to the REAL concurrent_priority_queue by calling its handle_operations on a hand-built operation list (array and mark set white-box); the real outcome is validated by TLC (TracePQBatch, the verdict) and compared with the transcription (drift). TLC model-checks AggrCore (aggregator_generic::execute / start_handle_operations at shared-access granularity: status load, pending load, next store, CAS push, handler_busy spin / set, exchange of the list, per-operation next load and status store, release of handler_busy; 2x2, 3x1, thorough 3x2 operations: one handler at a time, every operation handled exactly once, a caller returns only after its operation was handled, nothing pending at quiescence) and replays EVERY edge on the real aggregator_generic template (operations from a tracked pool), comparing pending / handler_busy / every next and status word per step, TraceAggr as verdict. TLC model-checks Aggregator (pending-stack CAS push, first pusher becomes handler, handler_busy hand-over, two-pass batch handler): every operation '
-        'handled exactly once, one handler at a time, no deadlock, conservation. Histories of the real concurrent_priority_queue (push/try_pop, duplicates, '
-        'monotone runs, the k-th element copy throwing) under seeded random cooperative schedules are checked by TLC for linearizability against PQAbs '
-        '(a generic linearization search: a pop returns a maximum of the contents at its point, fails only when empty, a throwing copy fails only its own push).',
-   note='real-code schedules sampled, not enumerated; known finding: a copy/move that throws inside the handler outside the guarded push wedges the queue (DESIGN 6.7)',
-   technique='function transcription checked by TLC and replayed transition-complete on the real batch handler (TLC trace validation of the real outcomes) + PlusCal protocol model checked by TLC + TLC linearizability validation of recorded real histories against PQAbs',
-   design='4 (C13), 6.7')
-CHECKS['C05'] = dict(
-   text='TLC enumerates, for every size <= 12 (14 thorough), several grains and both kinds of split (middle split and the partitioners proportional split '
-        'with its rounding), every split tree a partitioner may produce on a blocked_range: non-empty, disjoint, exact cover, simple_partitioner chunk bounds. '
-        'The subranges handed to the bodies of real parallel_for runs (1-d: 13 sizes x 5 grains x 4 partitioners; 2d/3d/nd; first/last/step; parallel_for_each '
-        'with feeder; parallel_invoke; sizes 2^24+-1, 2^31+-1, 2^32+5, 2^40+3, 2^64-2) on 3 logical threads under seeded random cooperative schedules - the '
-        'schedule decides the steal pattern that drives the adaptive partitioners - are validated by TLC against RangeCover.',
-   note='the depth/divisor/steal-feedback logic of auto/static/affinity partitioners is exercised on the real code only (the model lets them stop splitting anywhere); steal patterns sampled; float split point above 2^24 validated as legal, not predicted',
-   technique='function transcription checked by TLC and replayed transition-complete on the real batch handler (TLC trace validation of the real outcomes) + TLA+ function specification of range splitting checked by TLC + TLC trace validation of recorded subranges against RangeCover',
-   design='4 (C05)')
-CHECKS['C06'] = dict(
-   text='TLC model-checks Reduce (lazy Body split when the left sibling is still running, zombie Body, join in fold_tree) over complete trees with 4 and 8 '
-        'leaves and every start/finish order: result = left-to-right fold, every Body always holds a contiguous interval. Real parallel_reduce (imperative x4 '
-        'partitioners, functional form), parallel_deterministic_reduce (leaf set, join tree and float bit pattern compared between a 3-thread and a 1-thread run), '
-        'parallel_scan (final pass exactly once per element with the right prefix) and parallel_sort (equal keys, one inversion at a seed-dependent position, '
-        'sizes 499/500/501/1000) with symbolic operands under seeded random cooperative schedules are validated by TLC against AlgoAbs.',
-   note='steal patterns sampled; for parallel_sort above 12 elements the recorder decides sorted/permutation and TLC only checks the flags (stated weak spot)',
-   technique='function transcription checked by TLC and replayed transition-complete on the real batch handler (TLC trace validation of the real outcomes) + TLA+ protocol model checked by TLC + TLC trace validation of symbolic results against AlgoAbs',
-   design='4 (C06), 5')
-CHECKS['C07'] = dict(
-   text='TLC model-checks Pipeline (stage tasks, per-filter input_buffer with low/high tokens, parked ring with growth, token accounting, input-task recycling) '
-        'for six mode strings: serial exclusivity, token bound, no duplicate, common in-order sequence, ring indexing, completion, no deadlock. Filter-body '
-        'begin/end events of real parallel_pipeline runs for all 39 mode strings of length <= 3 plus six of length 4, token limits 1..3, 0..5 items, '
-        'seed-derived per-item stage delays, on 3 logical threads under seeded random cooperative schedules are validated by TLC against PipeAbs.',
-   note='arrival orders sampled; the protocol model is bound to the code through the abstract events only (no step replay)',
-   technique='function transcription checked by TLC and replayed transition-complete on the real batch handler (TLC trace validation of the real outcomes) + TLA+ protocol model checked by TLC + TLC trace validation of filter events against PipeAbs',
+   technique='function transcription of the token buffer checked by TLC and replayed transition-complete on the real input_buffer + function transcription checked by TLC and replayed transition-complete on the real batch handler (TLC trace validation of the real outcomes) + TLA+ protocol model checked by TLC + TLC trace validation of filter events against PipeAbs',
    design='4 (C07)')
 CHECKS['C01'] = dict(
    text='TLC model-checks TaskPool and TaskPoolIso (arena_slot spawn incl. relocation of the pool in prepare_task_pool, get_task / get_task_impl with isolation: skipped tasks, '
@@ -253,7 +150,7 @@ CHECKS['C19'] = dict(
    technique='function transcription checked by TLC and replayed transition-complete on the real batch handler (TLC trace validation of the real outcomes) + PlusCal protocol models (safety + liveness) checked by TLC + TLC trace validation of recorded real executions against OnceAbs / EtsAbs',
    design='4 (C19)')
 CHECKS['C02'] = dict(
-   text='TLC model-checks Monitor (concurrent_monitor prepare_wait / commit_wait / cancel_wait against notify, the futex semaphore word 0/1/2 and the monitor mutex) '
+   text='TLC model-checks ExecSlot (task_arena::execute without a free slot: delegated functor, exit monitor, the three notifications - of the task\'s finalize, of a leaving thread, and the baton of a caller that leaves the wait loop without entering; 3-4 callers, 1-2 slots, functors that wait inside or stay inside: no reachable state in which a caller can never return, every caller returns under weak fairness, each functor runs once; vacuity controls show that each notification is needed) with the fact BATON extracted from the running code by a DIRECTED cooperative schedule that builds the critical state of TLC\'s counterexample on a real arena (probe_exec); the other two notifications are exercised by the scenarios execstay / exec2xNH. TLC model-checks Monitor (concurrent_monitor prepare_wait / commit_wait / cancel_wait against notify, the futex semaphore word 0/1/2 and the monitor mutex) '
         'under sequential consistency and under x86-TSO with the client store buffered, for 1-2 sleepers x 1-2 notifiers, plus termination of every sleeper under '
         'weak fairness; the full fences the protocol relies on are facts observed on the running code (hook stream of prepare_wait / notify_one / notify_all) and fed '
         'into the TSO model, a model without the notifier fence is the vacuity control; PoolState (advertise_new_work vs out_of_work, busy state) and Demand '
